@@ -21,7 +21,9 @@ META = {
                           "engine::eval::material::{eval, bishop_pair_eval}",
                           "thorough only: piece_square_tables::eval, phase_value, pawn_structure::eval, mobility_and_king_safety::eval, eval::eval on symbolic boards",
                           "parameter tables: piece-square tables, passed-pawn masks and table as produced by the real init() of this tree (native dump)"],
-    "stubs": ["six table look-ups -> geometry (C07) in the thorough mobility and whole-evaluation harnesses only"],
+    "stubs": ["six table look-ups -> geometry (C07) in the thorough mobility and whole-evaluation harnesses only",
+              "c16_compose only: material::eval, mobility_and_king_safety::eval, pawn_structure::eval -> one arbitrary fixed packed value each (uninterpreted functions of the game); "
+              "the native replay runs the real functions on valid positions with their real accumulators"],
     "bounds": ["blend: ALL i16 (mg, eg) pairs that can be packed, phase 0..88", "per-man lemmas: every colour, kind, square; every enemy pawn set",
                "bishop-pair term: any valid position", "mobility/king-safety: the evaluated side has at most one officer (kind by case split), everything else symbolic; "
                "with several officers the term is the sum of the per-officer look-ups plus a king-zone count over the UNION of their attack sets - not decided beyond one officer", "thorough whole-term harnesses: see their descriptions (officers <= 1 per kind and colour where the term loops over them)"],
@@ -39,7 +41,9 @@ MANIFEST = {
             "minus that of the colour-swapped man on the rank-flipped square (all 768 cells, magnitudes far inside an i16 half), passed-ness / mask / bonus of a pawn "
             "are mirror images for the two colours and passed-ness equals its geometric definition (every square, every enemy pawn set); the bishop-pair term is "
             "antisymmetric on every valid position; the mobility/king-safety term of a side with at most one officer (each kind, or none) equals the other side's term "
-            "on the mirrored position with everything else symbolic. Whole-board symmetry of the summed terms follows by commutativity of addition; whole-term and whole-evaluation "
+            "on the mirrored position with everything else symbolic; (3) composition: for ANY accumulator content and ANY values of the three computed terms (uninterpreted), "
+            "the real absolute_eval / eval equal for_phase(sum of the four terms) seen from the side to move - no term skipped or weighted by who is ahead. "
+            "Whole-board symmetry of the summed terms follows by commutativity of addition; whole-term and whole-evaluation "
             "harnesses exist in thorough but the solver may not finish them.",
     "note": "Mobility/king-safety symmetry only with one officer on the evaluated side; boundedness for extreme material not decided in quick; the sum step is an argument, not a solver verdict.",
     "design_ref": "DESIGN.md s.4 C16",
@@ -80,6 +84,8 @@ def jobs(tier, seed):
             js.append(Job(name, f"mobility/king-safety term of {'white' if side == 0 else 'black'} with at most one officer ({KN[kind]}) == the other side's term on the mirrored "
                                 "position; everything else symbolic", gen=src, timeout=t, mem_gb=20, weight_gb=4, witness=False, checks="functional",
                           params={"officer": KN[kind], "side": "wb"[side]}))
+    js.append(Job("c16_compose", "absolute_eval / eval == for_phase(accumulators + material + mobility/king-safety + pawn structure) seen from the mover, for ANY accumulator "
+                                 "content and ANY term values (the three term functions are uninterpreted here), any valid position", timeout=900, checks="functional", min_covers=2))
     if tier == "thorough":
         # whole-term statements on symbolic boards: equality of two 64-term sums in different order is hard for SAT; long caps, may stay inconclusive
         js += [
